@@ -51,7 +51,7 @@ std::string Hex(const std::string& s) {
   return o;
 }
 
-// ---- ThreadLocal slots: six (T, Slot) instantiations --------------------------------------
+// ---- ThreadLocal slots: eight (T, Slot) instantiations (5 is the default slot, ThreadLocalSlot<void, 0>) --------------------------------------
 template <int K> struct SlotOps;
 #define SLOT(K, T, S, FROM, TO)                                                     \
   template <> struct SlotOps<K> {                                                   \
@@ -70,7 +70,10 @@ SLOT(0, int, S0, static_cast<int>(x), std::to_string(r))
 SLOT(1, int, S1, static_cast<int>(x), std::to_string(r))
 SLOT(2, long, S0, x, std::to_string(r))
 SLOT(3, std::string, nop::ThreadLocalTypeSlot<Tag>, std::to_string(x), r)
-SLOT(4, int, nop::ThreadLocalIndexSlot<7>, static_cast<int>(x), std::to_string(r))
+SLOT(4, int, nop::ThreadLocalIndexSlot<0>, static_cast<int>(x), std::to_string(r))
+SLOT(6, int, nop::ThreadLocalIndexSlot<1>, static_cast<int>(x), std::to_string(r))
+using SV1 = nop::ThreadLocalSlot<void, 1>;
+SLOT(7, int, SV1, static_cast<int>(x), std::to_string(r))
 using DefaultTL = nop::ThreadLocal<int>;
 template <> struct SlotOps<5> {
   static void New(long x) { DefaultTL v{static_cast<int>(x)}; (void)v; }
@@ -165,7 +168,7 @@ std::atomic<int> g_ready{0};
 std::atomic<bool> g_go{false};
 
 void RunScript(const std::vector<std::string>& ops, std::uint64_t seed, bool concurrent, int nthreads, std::string* out) {
-  bool full[6] = {false, false, false, false, false, false};
+  bool full[8] = {false, false, false, false, false, false, false, false};
   if (concurrent) { g_ready.fetch_add(1); while (!g_go.load()) std::this_thread::yield(); (void)nthreads; }
   std::uint64_t rng = seed * 6364136223846793005ULL + 1442695040888963407ULL;
   for (const auto& op : ops) {
@@ -183,6 +186,8 @@ void RunScript(const std::vector<std::string>& ops, std::uint64_t seed, bool con
           case 2: SlotOp<2>(c, x1, &full[2], &obs); break;
           case 3: SlotOp<3>(c, x1, &full[3], &obs); break;
           case 4: SlotOp<4>(c, x1, &full[4], &obs); break;
+          case 6: SlotOp<6>(c, x1, &full[6], &obs); break;
+          case 7: SlotOp<7>(c, x1, &full[7], &obs); break;
           default: SlotOp<5>(c, x1, &full[5], &obs); break;
         }
         break;
@@ -205,6 +210,7 @@ int main() {
   std::ios::sync_with_stdio(false);
   // ThreadLocal objects constructed by the main thread and shared with every thread (never initialised here)
   SlotOps<0>::Shared(); SlotOps<1>::Shared(); SlotOps<2>::Shared(); SlotOps<3>::Shared(); SlotOps<4>::Shared(); SlotOps<5>::Shared();
+  SlotOps<6>::Shared(); SlotOps<7>::Shared();
   std::string line;
   while (std::getline(std::cin, line)) {
     if (line.empty() || line[0] == '#') { std::cout << line << "\n"; continue; }
